@@ -15,6 +15,7 @@ python3 tools/rs2lean_search.py
 python3 tools/rs2lean_book.py
 python3 tools/rs2lean_uci.py
 python3 tools/rs2lean_seams.py
+python3 tools/rs2lean_iterate.py
 [ -f tools/gen_c09.py ] && python3 tools/gen_c09.py || true
 (cd lean && lake build Wee weedriver)
 (cd harness && cargo build && cargo build --release)
